@@ -22,6 +22,18 @@ CHECKS = {
    technique='deterministic simulation: baton-passing scheduler over real session threads with plan-chosen pre-emptions (sys.settrace line events) and a simulated lock; linearizability checked by sequential re-execution of the real engine',
    text='2-4 real KmipSession.run() threads share one real engine; the plan fixes every context switch (0-5 explicit pre-emptions at traced source lines of engine.py/session.py/policy code plus tie-breaks at blocking points). The recorded request frames are replayed one at a time on a fresh engine+database in the order of lock acquisitions (other admissible orders are searched on mismatch); all responses (byte for byte) and the final store, including the owner column, must match. Deadlock and unanswered requests are flagged. Schedules are sampled, not enumerated.',
    note='Pre-emption granularity is a PyKMIP source line (not inside SQLAlchemy/SQLite); engine.threading is replaced so that the engine\'s own RLock() call yields the simulated lock; SQLite busy timeout 0; constant clock inside a run.'),
+ 'C03': dict(level='exploration', ref='5/C03',
+   technique='deterministic simulation of multi-identity request histories against a reference grant model; per-step sweep of all reads by all identities; restarts injected',
+   text='Seeded histories by 2-3 certificate identities (group lists via a simulated SLUGS service) under random user policies and the built-in ones, over every object-addressing operation incl. indirect reach (wrapping key, derivation base, ID placeholder), with engine restarts. Safety direction only: every effect or disclosure must be granted by the reference decision function; denials must be permission errors with the not-found text, carry no payload or object data and leave the store unchanged; Locate lists only permitted objects; owner column == creator at every step.',
+   note='Reference decision function written from the property statement; built-in policy tables read from docs/source/server.rst (Set Attribute mapped to Modify Attribute). Over-denial is not reported here. Policy reload racing requests is not yet part of this check.'),
+ 'C04': dict(level='exploration', ref='5/C04',
+   technique='deterministic simulation of operation histories with a lifecycle transition relation as oracle; systematic sweep of short sequences mixed with seeded random histories and restarts',
+   text='All sequences up to depth 3 (quick; depth 4 and all seven object types in thorough) over a 9-letter alphabet on one object, plus random histories over several objects with engine restarts. After every step the State of every stored object is compared with the allowed-transition relation (only a successful Activate/Revoke may change it, only forward); a successful Encrypt/Decrypt/Sign/SignatureVerify/MAC/wrapping/DeriveKey requires that the store said Active, right kind and mask bit (Derive Key bit) before the step; Destroy of an Active object must be refused.',
+   note='State, mask and type are read from the SQLite tables (ground truth for the guards). MAC: only Active + MAC Generate are demanded (the statement does not define the right kind for MAC).'),
+ 'C07': dict(level='exploration', ref='5/C07',
+   technique='deterministic simulation of create/destroy histories with clean restarts and crash-restarts (LD_PRELOAD shim kills the forked server at a seeded file-system call or between commit and response)',
+   text='Histories by 2-3 clients biased to destroy-newest-then-create and destroy-all-then-create, with clean restarts and kill-restarts. Every identifier ever returned or found in the store after recovery must be new; after a successful (or crash-completed) Destroy every identity must get not-found for GetAttributes/Get and every other operation on it (also indirectly as wrapping key / derivation base must fail), Locate must never list it, and other objects must be unchanged by the Destroy.',
+   note='Process death only. Identifier allocation is SQLite AUTOINCREMENT, which runs for real.'),
 }
 ALL = ['C%02d' % i for i in range(1, 21)]
 
